@@ -349,7 +349,6 @@ func preludeText() string {
 	sb.WriteString("(define-fun tmod ((a Int) (b Int)) Int (- a (* b (tdiv a b))))\n")
 	sb.WriteString("(declare-fun bor (Int Int) Int)\n(declare-fun band (Int Int) Int)\n(declare-fun bxor (Int Int) Int)\n(declare-fun bandnot (Int Int) Int)\n(declare-fun bshl (Int Int) Int)\n(declare-fun bshr (Int Int) Int)\n")
 	sb.WriteString("(declare-fun typeof (Int) Int)\n")
-	sb.WriteString("(declare-fun mapcard ((Array Int Bool)) Int)\n")
 	return sb.String()
 }
 
